@@ -182,7 +182,7 @@ def sortStrs (l : List String) : List String := l.mergeSort (fun a b => a ≤ b)
 
 def showH : (t : Ty) → t.Host → String
   | .int _, x => toString x.val
-  | .bool, b => if b then "t" else "f"
+  | .bool, b => match (b : Bool) with | true => "t" | false => "f"
   | .char, c => s!"c{c.val}"
   | .string, s => "s" ++ hexOf s
   | .unit, _ => "u"
